@@ -146,3 +146,22 @@ def pyframe(kind, tid, pid, uid, pdu):
     if kind == "tls":
         return pdu
     raise ValueError(kind)
+
+
+def checksum_variants(kind, b):
+    """structured damage of the integrity field of one frame (the two check bytes exchanged, zeroed, all ones, complemented, one of
+    them zeroed); RTU: last two bytes, binary: the two bytes before '}', ASCII: the two LRC characters before CR LF"""
+    if kind == "rtu" and len(b) >= 4:
+        lo, hi = len(b) - 2, len(b)
+    elif kind == "bin" and len(b) >= 6 and b[-1:] == b"}":
+        lo, hi = len(b) - 3, len(b) - 1
+    elif kind == "ascii" and len(b) >= 7:
+        lo, hi = len(b) - 4, len(b) - 2
+    else:
+        return []
+    c = b[lo:hi]
+    if kind == "ascii":
+        alts = [c[::-1], b"00", b"FF", b"0" + c[1:2], c[0:1] + b"0"]
+    else:
+        alts = [c[::-1], b"\x00\x00", b"\xff\xff", bytes([0, c[1]]), bytes([c[0], 0]), bytes([c[0] ^ 0xFF, c[1] ^ 0xFF])]
+    return [b[:lo] + a + b[hi:] for a in alts if a != c]
